@@ -200,6 +200,32 @@ def expm_cases(draw, tier):
     return {'op': 'expm', 'A': A}
 
 
+@st.composite
+def expm_high_cases(draw, tier):
+    """small base points (the zero matrix, ||A_0||_1 from 1e-3 to 0.2, and up to the 0.5 of the main bucket) together
+    with MANY coefficients (D = 7..10): the accuracy of the high Taylor coefficients of a Pade approximant does not
+    follow from the accuracy of its value at A_0 (the coefficient of t^d of r_m(A(t)) - exp(A(t)) has only 2m+1-d small
+    factors)"""
+    D = draw(st.integers(7, 10))
+    P = draw(st.sampled_from([1, 1, 2]))
+    n = draw(st.integers(1, 3))
+    cls = draw(st.sampled_from(['zero', 'zero', '1e-3..0.0149', '1e-3..0.0149', '0.0149..0.2', '0.2..0.5']))
+    A = np.zeros((D, P, n, n))
+    for p in range(P):
+        if cls == 'zero':
+            continue
+        raw = draw(gen.float_array((n, n), gen.interval_union((-1.0, 1.0)), sparse=False))
+        lo, hi = {'1e-3..0.0149': (-3.0, np.log10(0.0149)), '0.0149..0.2': (np.log10(0.0149), np.log10(0.2)),
+                  '0.2..0.5': (np.log10(0.2), np.log10(0.5))}[cls]
+        r = float(10.0 ** draw(gen.nice_floats(lo, hi)))
+        nrm = np.abs(raw).sum(axis=0).max()
+        A[0, p] = raw * (r / nrm) if nrm > 0 else raw
+    # dense first-order term (the error lives in products of the non-small coefficients), the rest as usual
+    A[1] = draw(gen.float_array((P, n, n), gen.interval_union((-0.5, 0.5)), sparse=False))
+    A[2:] = draw(gen.higher_coeffs((D - 2, P, n, n), gen.coeff_elements(0.5)))
+    return {'op': 'expm', 'A': A, 'base_norm': cls}
+
+
 # ---------------------------------------------------------------------------
 # properties
 # ---------------------------------------------------------------------------
@@ -243,6 +269,19 @@ def with_layout(draw, strat, nops):
         if m is not None:
             case['out'] = m
             case['entry'] = 'class'
+    # the SAME constant ndarray object refilled in place and used in a second call (a preallocated step / Jacobian
+    # matrix in a loop): the second result must be the one of a fresh array with the new contents
+    kind = case.get('kind')
+    if case['op'] in ('dot', 'outer', 'solve') and kind and 'N' in kind and not case.get('cplx') and draw(st.integers(0, 2)) == 0:
+        key = (('A', 'B') if case['op'] == 'solve' else ('x', 'y'))[kind.index('N')]
+        c1 = case[key]
+        if case['op'] == 'solve' and key == 'A':
+            c2 = draw(base_matrix(c1.shape[0]))
+        elif c1.dtype.kind == 'i':
+            c2 = draw(gen.float_array(c1.shape, st.integers(-3, 3).map(float), sparse=False)).astype(c1.dtype)
+        else:
+            c2 = draw(gen.float_array(c1.shape, VAL, sparse=False))
+        case['refill'] = c2
     return case
 
 
@@ -334,6 +373,17 @@ def prop_binary(case, stats):
     _same(case, ('x', 'y'), live, what)
     _is_utpm(z, what)
     R.check_close(z.data, ref, scale, TOL_CONV, stats, what)
+    if case.get('refill') is not None:
+        i = kind.index('N')
+        key = ('x', 'y')[i]
+        live[i][...] = case['refill']                          # same object, new contents
+        case2 = dict(case)
+        case2[key] = case['refill']
+        z2 = guard(_fn(case), *live)
+        _same(case2, ('x', 'y'), live, what + '[second call, constant refilled in place]')
+        _is_utpm(z2, what)
+        ref2, scale2 = R.conv_with_scale(R.as_series(case2['x'], kind[0], D, P), R.as_series(case2['y'], kind[1], D, P), npop)
+        R.check_close(z2.data, ref2, scale2, TOL_CONV, stats, what + '[second call, constant refilled in place]')
     if buf is not None and z is buf:
         pass      # (C07 is about the RETURNED coefficients; UTPM.dot/outer allocate a new result and leave out= alone -
         #            demanding filled buffer contents was oracle over-reach, see DESIGN 9a)
@@ -402,8 +452,18 @@ def prop_solve(case, stats):
     if buf is not None and X is not buf:
         # the call allocated a new result (one plain operand): return value checked, buffer contents are a known finding
         _check_solve(case, X, stats, what)       # (only the returned value is the property's subject, DESIGN 9a)
-        return
-    _check_solve(case, X, stats, what)
+    else:
+        _check_solve(case, X, stats, what)
+    if case.get('refill') is not None and buf is not live[1]:
+        i = kind.index('N')
+        key = ('A', 'B')[i]
+        live[i][...] = case['refill']                          # same object, new contents
+        case2 = dict(case)
+        case2[key] = case['refill']
+        what2 = 'solve[%s][second call, constant refilled in place]' % kind
+        X2 = guard(_fn(case), *live)
+        _same(case2, ('A', 'B'), live, what2)
+        _check_solve(case2, X2, stats, what2)
 
 
 SOLVE_DECLARED = ('require x.data.shape=(D,P,M,K)', 'not enough values to unpack')
@@ -545,6 +605,10 @@ def _classes(case):
     if case.get('out'):
         c.append('out=' + case['out'])
         c.append('out=%s,op=%s' % (case['out'], case['op']))
+    if case.get('refill') is not None:
+        c.append('constant-refilled-in-place,op=%s,kinds=%s' % (case['op'], case['kind']))
+    if case.get('base_norm'):
+        c.append('expm-base-norm=' + case['base_norm'])
     if case.get('cplx'):
         c.append('complex-data')
         c.append('complex-data,op=%s,operands=%s' % (case['op'], case['cplx']))
@@ -622,6 +686,9 @@ def buckets(tier):
                      nontrivial=_nontrivial, classes=_classes))
     bl.append(Bucket('expm', (lambda: with_layout(expm_cases(tier), 1)), prop_expm, {'quick': 50, 'thorough': 300},
                      nontrivial=_nontrivial, classes=_classes, shards={'quick': 4, 'thorough': 8}, weight=40.0))
+    bl.append(Bucket('expm:small-base:high-order', (lambda: with_layout(expm_high_cases(tier), 1)), prop_expm,
+                     {'quick': 12, 'thorough': 100}, nontrivial=_nontrivial, classes=_classes,
+                     shards={'quick': 4, 'thorough': 8}, weight=200.0))
     # complex coefficient data: the operations whose kernels handle it on this tree (see notes/C07.md for the others)
     for kind in KINDS:
         bl.append(Bucket('dot:complex:' + kind,
